@@ -85,6 +85,10 @@ def parse(out):
     for mm in re.finditer(r'Failed Checks: (.*)', out):
         failed_desc.append(mm.group(1).strip())
     unwind_fail = 'unwinding assertion' in out and any('unwinding' in d for d in failed_desc)
+    # CBMC running out of memory / crashing is reported by Kani as FAILED without any failed check: that is undecided
+    if verdict == 'FAILED' and (not failed_desc or 'Out of memory' in out or 'CBMC failed with status' in out or 'CBMC timed out' in out):
+        if not failed_desc or 'Out of memory' in out or 'CBMC failed with status' in out:
+            verdict = None
     return verdict, nfail, ntotal, failed_desc, unwind_fail
 
 
@@ -211,6 +215,8 @@ for _p, _c in (('isaac', 'IsaacCore'), ('isaac64', 'Isaac64Core')):
     ], module=_p + '::rngs_verif_harness')
 register('seeding', [
     H('xorshift_seed_from_u64_is_pcg32', 'C09', note='XorShiftRng::seed_from_u64(x) == from_seed(PCG32 expansion of x) for every x'),
+    H('xorshift_from_rng_redraws_only_on_zero', 'C08 C09', bounded='at most two leading all-zero blocks', note='XorShiftRng::from_rng: redraw only on an all-zero block; state == LE words of the first non-zero block; source advanced by exactly the blocks drawn'),
+    H('xorshift_try_from_rng_agrees_or_fails', 'C08 C09', bounded='at most two leading all-zero blocks', note='XorShiftRng::try_from_rng: same generator as from_rng on a source that does not fail; the source error and no generator when it fails (any failing call)'),
 ])
 register('serde_rt', [H('serde_' + n, 'C11', tier=('quick' if n in ('splitmix64', 'xoroshiro128plus', 'xoshiro128plusplus', 'xoshiro256plusplus', 'xoshiro512starstar', 'xorshift') else 'thorough'),
                         note='bincode round trip of %s::from_seed(any): restored == original, original untouched' % n, timeout=1500)
@@ -236,3 +242,13 @@ register('api', [H('api_seed_' + n, 'C01 C08', tier='thorough', timeout=1800,
                  for n in _API32 + _API64] +
                 [H('api_seed_xorshift', 'C04 C08', tier='thorough', note='XorShiftRng::from_seed: LE words / 0x0BAD5EED (public API)'),
                  H('api_step_xorshift', 'C04 C05', tier='thorough', note='XorShiftRng::next_u32 == xor128 step (public API, arbitrary non-zero state)')])
+for _p in ('isaac', 'isaac64'):
+    SETS[_p + '_incrate'] += [
+        H(_p + '_core_serde_roundtrip', 'C11', crate='rand_isaac', tier='thorough', timeout=2400, flags=['--features', 'serde'], qual=_p + '::rngs_verif_harness::' + _p + '_core_serde_roundtrip',
+          note='the ISAAC core in an arbitrary state (259 symbolic words) through derive output + isaac_array_serde (token format): restored == original'),
+    ]
+SETS['api'] = [H('api_fill_' + n, 'C05', tier='thorough', timeout=1800, qual='api::api_fill_' + n,
+                 bounded='n <= 20 bytes (every tail length after 0, 1 and 2 full words), arbitrary state',
+                 note='%s::fill_bytes(n) == n/8 next_u64, then one next_u64 / next_u32 truncated; generator left where the equivalent calls leave it' % n)
+               for n in ['xoshiro128starstar', 'xoshiro256plusplus', 'splitmix64', 'xoroshiro128plusplus', 'xorshift', 'xoroshiro64star', 'xoroshiro64starstar', 'xoroshiro128plus',
+                         'xoroshiro128starstar', 'xoshiro128plus', 'xoshiro128plusplus', 'xoshiro256plus', 'xoshiro256starstar', 'xoshiro512plus', 'xoshiro512plusplus', 'xoshiro512starstar']] + SETS['api']
